@@ -135,7 +135,11 @@ func c11Gen(rng *rand.Rand, maxOps int) (sess0, cook0 map[string]string, ops []c
 		case r < wprob/2:
 			ops = append(ops, c11Op{T: "hdr", Code: []int{200, 302, 307, 401, 404, 500}[rng.Intn(6)], Depth: d})
 		case r < wprob:
-			ops = append(ops, c11Op{T: "body", Body: hx(val()), Depth: d})
+			body := val()
+			if rng.Intn(5) == 0 { // a zero-length write still commits the header
+				body = ""
+			}
+			ops = append(ops, c11Op{T: "body", Body: hx(body), Depth: d})
 		case r < wprob+12:
 			ops = append(ops, c11Op{T: "get", S: []string{"sess", "cook"}[rng.Intn(2)], Key: hx(key())})
 		case r < wprob+16:
@@ -334,6 +338,7 @@ func init() {
 					{T: "ev", S: "cook", Ev: &c11Ev{K: "del", Key: hx("rm")}},
 					{T: "hdr", Code: 302},
 					{T: "body", Body: hx("b"), Depth: 1},
+					{T: "body", Body: ""},
 					{T: "get", S: "sess", Key: hx("uid")},
 				}
 				var rec func(prefix []c11Op, left int) error
